@@ -41,6 +41,14 @@ CLAIMS = {
               "bool-array sums, branch boundary count = number of E ends. Tie: translator + stream S08a (the real functions vs the spec evaluated exactly)."),
         note=TB + " numpy float reductions compared within 1e-9 relative; np.pi / np.sqrt are parameters. End-to-end Network.parameters on valid maps is covered under C01/C14 streams when built.",
         ref="DESIGN.md section 6 C08", technique="Lean 4 theorems over the regenerated parameter function against a hand-written published-definition spec"),
+    "C14": dict(
+        text=("Proof (Lean 4): node set, every node class and every branch label are invariant under permuting the noded pieces and reversing any of them "
+              "(C14_routes), hence two routes whose noded pieces agree up to order/direction give equal tables, and re-extraction from the branches "
+              "(noding idempotent up to order/direction) is a fixed point (C14_fixed_point); counts are functions of the class column. "
+              "Tie: stream S14 runs all four routes (already_clipped False, crop-first + True, Network truncate True/False) on valid maps with areas cutting "
+              "traces and compares EACH with the exact arrangement oracle; re-extraction from branches; GeoJSON write/read + rebuilt Network counts/parameters."),
+        note=TB + " partial: that every route's noding yields the arrangement's pieces on valid maps (NodingSpec) and that noding is idempotent are laws about GEOS, sampled by S14, not proved. GDAL GeoJSON round trip is outside the model. F15/F16/F6 were genuine defects on these routes and are repaired.",
+        ref="DESIGN.md section 6 C14", technique="Lean 4 permutation/reversal invariance theorems + four-route differential against the exact arrangement oracle"),
     "C15": dict(
         text=("Proof (Lean 4) over regenerated azimuth_post / is_set / determine_set / _calc_bins / _calc_locs: azimuth in [0,180) and equal to (90-d) mod 180 "
               "for every d in (-180,180], reversal invariance, set assignment = unique containing (wrap-around) range and never raises for pairwise "
